@@ -15,6 +15,7 @@ import (
 	"io"
 	"math/rand"
 	"net"
+	"os"
 	"reflect"
 	"time"
 
@@ -75,6 +76,10 @@ func (s *scriptedReader) Read(p []byte) (int, error) {
 	copy(p, s.data[s.pos:s.pos+n])
 	s.pos += n
 	s.used += n
+	if s.pos == len(s.data) && s.fault.Kind == "none" && (len(s.data)+len(s.segs))%2 == 0 {
+		// the last bytes of the stream together with io.EOF: allowed by io.Reader (flate, iotest.DataErrReader do it)
+		return n, io.EOF
+	}
 	return n, nil
 }
 
@@ -360,6 +365,7 @@ type stReadEv struct {
 	Consumed int     `json:"consumed"`
 	Panicked bool    `json:"panicked"`
 	Idx      int     `json:"idx"`
+	Cut      bool    `json:"cut"` // the stream was cut right behind the value (Len = Need)
 }
 
 type stRunRes struct {
@@ -394,7 +400,9 @@ func stRun(e stReadEntry, segs []int, f stFault, byteRdr bool) (r stRunRes) {
 }
 
 func stReadEvent(e stReadEntry, idx int, segs []int, f stFault, byteRdr bool) (stReadEv, bool) {
-	base := stRun(e, []int{len(e.Input)}, stFault{Kind: "none"}, byteRdr)
+	// the reference is THE contiguous read: all bytes available at once from a reader that also offers ReadByte (what a
+	// bytes.Reader is); the run under test may see the same stream through a plain io.Reader
+	base := stRun(e, []int{len(e.Input)}, stFault{Kind: "none"}, true)
 	if !base.ok || base.panicked {
 		return stReadEv{}, false // the contiguous read itself fails: not an input of this property
 	}
@@ -569,6 +577,9 @@ func runC09(env *vk.Env) {
 			e.Input = append(e.Input, 0xEE)
 		}
 		if ev, ok := stReadEvent(e, i, sc.Segs, sc.Fault, rng.Intn(2) == 0); ok {
+			if os.Getenv("VERIF_DEBUG") != "" && ev.Len == ev.Need && !ev.ByteRdr && ev.Fault.Kind == "none" {
+				fmt.Fprintf(os.Stderr, "DEBUG %s len=%d need=%d segs=%v ok=%v same=%v\n", ev.Entry, ev.Len, ev.Need, ev.Segs, ev.Ok, ev.Same)
+			}
 			tr.Add(ev)
 			nA++
 			if nA%3000 == 1 {
@@ -584,6 +595,19 @@ func runC09(env *vk.Env) {
 	tr = &vk.Trace{}
 	for i, e := range rs {
 		n := len(e.Input)
+		// the value as the last thing in the stream (its last byte may then arrive together with io.EOF)
+		if base := stRun(e, []int{n}, stFault{Kind: "none"}, true); base.ok && !base.panicked && base.consumed > 0 {
+			ec := e
+			ec.Input = e.Input[:base.consumed]
+			for _, br := range []bool{false, true} {
+				for mode := 0; mode < 3; mode++ {
+					if ev, ok := stReadEvent(ec, i, randSegs(rng, len(ec.Input), mode), stFault{Kind: "none"}, br); ok {
+						ev.Cut = true
+						tr.Add(ev)
+					}
+				}
+			}
+		}
 		for _, br := range []bool{false, true} {
 			for mode := 0; mode < 3; mode++ {
 				if ev, ok := stReadEvent(e, i, randSegs(rng, n, mode), stFault{Kind: "none"}, br); ok {
@@ -641,7 +665,12 @@ func replayC09(env *vk.Env, b []byte) {
 	json.Unmarshal(f.Replay.Line, &e)
 	tr := &vk.Trace{}
 	if e.K == "read" && e.Idx < len(rs) && rs[e.Idx].Name == e.Entry {
-		if ev, ok := stReadEvent(rs[e.Idx], e.Idx, e.Segs, e.Fault, e.ByteRdr); ok {
+		ent := rs[e.Idx]
+		if e.Cut && e.Len <= len(ent.Input) {
+			ent.Input = ent.Input[:e.Len]
+		}
+		if ev, ok := stReadEvent(ent, e.Idx, e.Segs, e.Fault, e.ByteRdr); ok {
+			ev.Cut = e.Cut
 			tr.Add(ev)
 		}
 	} else {
